@@ -523,6 +523,50 @@ func main() {
 		c.NonTrivial()
 	})
 
+	// near-coincident coordinates: values one ulp, 5e-10 and 2e-9 apart. A comparison with a tolerance, however small,
+	// makes the bound miss a vertex or Contains accept a point outside
+	nearVals := []float64{1, math.Nextafter(1, 2), 1 + 5e-10, 1 - 5e-10, 1 + 2e-9, 1 - 1e-12}
+	r.Explore("near-coincident", fmt.Sprintf("every list of 2..3 vertices with coordinates in %v (%d points): the bound of the list as multi-point / line / ring / polygon / collection is the exact min / max; Bound.Contains, Extend, Union and Intersects on the boxes spanned by two of the points agree with exact comparisons, Union commutes", nearVals, len(nearVals)*len(nearVals)), mc.Opts{MaxDev: -1, Split: 2}, func(c *mc.Ctx) {
+		n := 2 + c.Choose(2)
+		ps := make([]orb.Point, n)
+		for i := range ps {
+			ps[i] = orb.Point{nearVals[c.Choose(len(nearVals))], nearVals[c.Choose(len(nearVals))]}
+		}
+		want := orb.Bound{Min: ps[0], Max: ps[0]}
+		for _, p := range ps[1:] {
+			want.Min[0], want.Min[1] = math.Min(want.Min[0], p[0]), math.Min(want.Min[1], p[1])
+			want.Max[0], want.Max[1] = math.Max(want.Max[0], p[0]), math.Max(want.Max[1], p[1])
+		}
+		cp := func() []orb.Point { return append([]orb.Point(nil), ps...) }
+		for _, g := range []orb.Geometry{orb.MultiPoint(cp()), orb.LineString(cp()), orb.Ring(cp()), orb.Polygon{orb.Ring(cp())}, orb.MultiLineString{orb.LineString(cp()[:1]), orb.LineString(cp()[1:])},
+			orb.MultiPolygon{{orb.Ring(cp()[:1])}, {orb.Ring(cp()[1:])}}, orb.Collection{ps[0], orb.MultiPoint(cp()[1:])}} {
+			if b := g.Bound(); b != want {
+				c.Failf("bound-tight", "%s %v: Bound() = %v, the exact box is %v", kindOf(g), g, b, want)
+			}
+		}
+		// the first two points span a box; the last point is the probe
+		a := orb.Bound{Min: orb.Point{math.Min(ps[0][0], ps[1][0]), math.Min(ps[0][1], ps[1][1])}, Max: orb.Point{math.Max(ps[0][0], ps[1][0]), math.Max(ps[0][1], ps[1][1])}}
+		q := ps[n-1]
+		in := q[0] >= a.Min[0] && q[0] <= a.Max[0] && q[1] >= a.Min[1] && q[1] <= a.Max[1]
+		if a.Contains(q) != in {
+			c.Failf("bound-contains", "%v.Contains(%v) = %v, exact comparison says %v", a, q, a.Contains(q), in)
+		}
+		ext := orb.Bound{Min: orb.Point{math.Min(a.Min[0], q[0]), math.Min(a.Min[1], q[1])}, Max: orb.Point{math.Max(a.Max[0], q[0]), math.Max(a.Max[1], q[1])}}
+		if e := a.Extend(q); e != ext {
+			c.Failf("bound-extend", "%v.Extend(%v) = %v, want %v", a, q, e, ext)
+		}
+		b := orb.Bound{Min: orb.Point{math.Min(ps[n-2][0], q[0]), math.Min(ps[n-2][1], q[1])}, Max: orb.Point{math.Max(ps[n-2][0], q[0]), math.Max(ps[n-2][1], q[1])}}
+		un := orb.Bound{Min: orb.Point{math.Min(a.Min[0], b.Min[0]), math.Min(a.Min[1], b.Min[1])}, Max: orb.Point{math.Max(a.Max[0], b.Max[0]), math.Max(a.Max[1], b.Max[1])}}
+		if u1, u2 := a.Union(b), b.Union(a); u1 != un || u2 != un {
+			c.Failf("bound-union", "%v.Union(%v) = %v, reversed %v, want %v", a, b, u1, u2, un)
+		}
+		meet := a.Min[0] <= b.Max[0] && b.Min[0] <= a.Max[0] && a.Min[1] <= b.Max[1] && b.Min[1] <= a.Max[1]
+		if a.Intersects(b) != meet || b.Intersects(a) != meet {
+			c.Failf("bound-intersects", "%v.Intersects(%v) = %v / %v, exact comparison says %v", a, b, a.Intersects(b), b.Intersects(a), meet)
+		}
+		c.NonTrivial()
+	})
+
 	// nil against empty: a nil slice, an empty one and an empty one with spare capacity have the same (zero) length,
 	// so they are equal - in both directions, directly through the typed method and through every container
 	type emptyKind struct {
